@@ -348,6 +348,13 @@ pub fn c13(m: &mut Mon, w: &mut World, idx: usize) {
     if !new_data_class(w.runs[idx].out.code) || !w.runs[idx].stored {
         return;
     }
+    // white-box oracle: a stream fold ended with more unvisited values than were ever added below its cursor
+    // (values at or above the cursor are the fold's to visit; finding F16 covers only the ones below)
+    if let Some((_, det)) = w.runs[idx].out.probes.iter().find(|(n, _)| n == "stream_fold_unvisited_values_unexplained") {
+        let dd = format!("peer {} eid {}: a stream fold ended leaving values unvisited that sit at or above its cursor: {det}", w.runs[idx].peer, w.runs[idx].eid);
+        m.report(w, Some(idx), "C13", "fold-skipped-values-above-cursor", dd);
+        return;
+    }
     if w.sc.script.contains("$big") {
         return; // size-limit scripts append equal values many times; they have their own oracle (monitors4::c13_limit)
     }
